@@ -491,9 +491,10 @@ def expected(call: Call) -> list[Any]:
                 tr.append(["end"])
                 return tr
             else:
-                # a producer step that neither emits nor finishes is a contract violation by the script;
-                # generators never produce it
-                raise ValueError("script step without emit/finish")
+                # a producer step that neither emits nor finishes: the framework fails the call after process() returned
+                # (error type and text are the framework's own: not specified), the step's logs precede the error
+                tr.append(["error", None, None])
+                return tr
     else:
         n = 0
         for k, spec in enumerate(call.inputs):
